@@ -21,8 +21,14 @@ impl<T> Clone for Gc<T> { #[verifier::external_body] fn clone(&self) -> (r: Self
 impl<T> Copy for Gc<T> {}
 impl<T> Gc<T> {
     pub uninterp spec fn id(&self) -> int;
+    pub uninterp spec fn obj(&self) -> T;
     #[verifier::external_body]
     pub fn as_root(&self) -> (r: Root<T>) ensures r.id() == self.id() { unimplemented!() }
+}
+impl<T> Deref for Gc<T> {
+    type Target = T;
+    #[verifier::external_body]
+    fn deref(&self) -> (r: &T) ensures *r == self.obj() { unimplemented!() }
 }
 #[verifier::external_body]
 #[verifier::accept_recursive_types(T)]
@@ -62,7 +68,11 @@ impl Value {
 fn value_unwrap_or_default(o: Option<Value>) -> (r: Value)
     ensures o matches Some(v) ==> r == v, o is None ==> r == Value::nil(),
 { unimplemented!() }
-pub struct ObjClosure { }
+pub struct Chunk { }
+pub struct ObjModule { }
+pub struct ObjFunction { pub chunk: Gc<Chunk> }
+// a closure knows the function it runs and the module whose globals that function sees
+pub struct ObjClosure { pub function: Gc<ObjFunction>, pub module: Gc<RefCell<ObjModule>> }
 //@enum file=yarel/src/error.rs name=ErrorKind
 pub struct Error { pub kind: ErrorKind }
 #[verifier::external_body]
@@ -123,6 +133,8 @@ pub struct Vm {
     pub ip: usize,
     pub fiber: Option<Root<RefCell<ObjFiber>>>,
     pub unsafe_fiber: FiberPtr,
+    pub active_chunk: Gc<Chunk>,
+    pub active_module: Gc<RefCell<ObjModule>>,
     pub ghost heap: Map<int, ObjFiber>,
 }
 
@@ -130,7 +142,13 @@ impl Vm {
     pub open spec fn active_id(&self) -> int { self.fiber->0.id() }
     pub open spec fn active(&self) -> ObjFiber { self.heap[self.active_id()] }
     pub open spec fn wf(&self) -> bool { self.fiber is Some ==> self.heap.dom().contains(self.active_id()) }
-    pub open spec fn handles_same(&self, o: &Vm) -> bool { self.fiber == o.fiber && self.unsafe_fiber == o.unsafe_fiber && self.ip == o.ip && self.handling_exception == o.handling_exception }
+    pub open spec fn handles_same(&self, o: &Vm) -> bool { self.fiber == o.fiber && self.unsafe_fiber == o.unsafe_fiber && self.ip == o.ip && self.handling_exception == o.handling_exception && self.active_chunk == o.active_chunk && self.active_module == o.active_module }
+    // the VM's cached view — instruction pointer, code and MODULE (whose globals GetGlobal / DefineGlobal / SetGlobal
+    // touch: unit modules) — is that of the innermost frame of the active fiber
+    pub open spec fn view_ok(&self) -> bool {
+        let f = self.active().frames@.last();
+        self.ip == f.ip && self.active_chunk == f.closure.obj().function.obj().chunk && self.active_module == f.closure.obj().module
+    }
 
     // `g.borrow()` on a fiber cell
     #[verifier::external_body]
@@ -179,12 +197,12 @@ impl Vm {
             final(self).heap == old(self).heap.insert(old(self).active_id(), ObjFiber { caller: old(self).active().caller, stack: StackS { view: old(self).active().stack.view.update(old(self).active().stack.view.len() - 1 - depth, value) }, frames: old(self).active().frames, handling_exception: old(self).active().handling_exception, call_arity: old(self).active().call_arity, return_ip: old(self).active().return_ip, return_frame_count: old(self).active().return_frame_count, pending_frame_count: old(self).active().pending_frame_count, pending_exception: old(self).active().pending_exception, error_ip: old(self).active().error_ip, cells_closed: old(self).active().cells_closed }),
             forall|i: int| #![trigger old(self).heap.dom().contains(i)] old(self).heap.dom().contains(i) && i != old(self).active_id() ==> final(self).heap.dom().contains(i) && final(self).heap[i] == old(self).heap[i],
     { unimplemented!() }
-    // ip := saved ip of the active fiber's current frame (plus active chunk / module, not modelled)
+    // ip, active chunk and active module := those of the active fiber's current frame (its own contract: unit exc)
     #[verifier::external_body]
     fn load_frame(&mut self)
         requires old(self).fiber is Some, old(self).heap.dom().contains(old(self).active_id()), old(self).active().frames@.len() > 0
         ensures final(self).fiber == old(self).fiber, final(self).unsafe_fiber == old(self).unsafe_fiber, final(self).heap == old(self).heap,
-            final(self).ip == old(self).active().frames@.last().ip, final(self).handling_exception == old(self).handling_exception,
+            final(self).ip == old(self).active().frames@.last().ip, final(self).handling_exception == old(self).handling_exception, final(self).view_ok(),
     { unimplemented!() }
 
     // `f.call(arg)`. Rejected (finished fiber, or one that is already running / waiting for a callee): an error and
@@ -204,6 +222,7 @@ impl Vm {
     //@  requires old(self).fiber is Some ==> old(self).active().frames@.len() > 0
     //@  requires old(self).heap[fiber.id()].stack.view.len() + 2 <= STACK_MAX, !old(self).heap[fiber.id()].new_fiber() ==> old(self).heap[fiber.id()].stack.view.len() > 0
     //@  ensures @switching_to_a_fiber_closes_no_captured_variable forall|i: int| #![trigger old(self).heap.dom().contains(i)] old(self).heap.dom().contains(i) ==> final(self).heap.dom().contains(i) && final(self).heap[i].cells_closed == old(self).heap[i].cells_closed
+    //@  ensures @the_fiber_that_is_entered_runs_its_own_code_in_its_own_module r is Ok ==> final(self).view_ok()
     //@  ensures @rejected_call_changes_nothing r is Err ==> final(self).heap == old(self).heap && old(self).handles_same(final(self))
     //@  ensures @rejected_iff_finished_or_running (r is Err) <==> (old(self).heap[fiber.id()].frames@.len() == 0 || old(self).heap[fiber.id()].caller is Some)
     //@  ensures r matches Err(e) ==> e.kind is RuntimeError
@@ -231,6 +250,7 @@ impl Vm {
     //@  requires old(self).active().caller matches Some(c) ==> old(self).heap.dom().contains(c.id()) && c.id() != old(self).active_id() && old(self).heap[c.id()].stack.view.len() > 0 && old(self).heap[c.id()].frames@.len() > 0
     //@  ensures @a_suspended_fiber_keeps_the_cells_of_its_captured_variables_open forall|i: int| #![trigger old(self).heap.dom().contains(i)] old(self).heap.dom().contains(i) ==> final(self).heap.dom().contains(i) && final(self).heap[i].cells_closed == old(self).heap[i].cells_closed
     //@  ensures @the_yielding_fiber_keeps_the_cells_of_its_captured_variables_open final(self).heap.dom().contains(old(self).active_id()) && final(self).heap[old(self).active_id()].cells_closed == old(self).active().cells_closed
+    //@  ensures @the_caller_continues_its_own_code_in_its_own_module r is Ok ==> final(self).view_ok()
     //@  ensures @yield_outside_a_fiber_is_an_error (r is Err) <==> (old(self).active().caller is None)
     //@  ensures r matches Err(e) ==> e.kind is RuntimeError
     //@  ensures @rejected_yield_keeps_fibers r is Err ==> final(self).fiber == old(self).fiber && final(self).unsafe_fiber == old(self).unsafe_fiber && final(self).heap.dom() == old(self).heap.dom() && final(self).active().caller == old(self).active().caller && final(self).active().frames@.len() == old(self).active().frames@.len() && (forall|i: int| old(self).heap.dom().contains(i) && i != old(self).active_id() ==> final(self).heap[i] == old(self).heap[i])
@@ -266,6 +286,7 @@ impl Vm {
     //@  ensures @a_frame_that_is_left_takes_the_exception_its_finally_block_was_entered_with_along (old(self).active().frames@.len() > 1 && final(self).handling_exception) ==> final(self).heap[old(self).active_id()].pending_frame_count != old(self).active().frames@.len()
     //@  ensures @the_end_of_the_outermost_fiber_ends_the_run (old(self).active().frames@.len() == 1 && old(self).active().caller is None) ==> (r matches Ok(Some(_))) && final(self).fiber == old(self).fiber && final(self).active().frames@.len() == 0
     //@  ensures @a_frame_that_is_left_closes_the_cells_of_its_variables_and_no_others final(self).heap[old(self).active_id()].cells_closed == old(self).active().cells_closed.push(old(self).active().frames@.last().slot_base as int)
+    //@  ensures @after_a_return_the_caller_continues_its_own_code_in_its_own_module (r matches Ok(None)) ==> final(self).view_ok()
     //@  ensures @other_fibers_untouched forall|i: int| old(self).heap.dom().contains(i) && i != old(self).active_id() && !(old(self).active().caller matches Some(c) && i == c.id()) ==> final(self).heap.dom().contains(i) && final(self).heap[i] == old(self).heap[i]
     //@end
 }
